@@ -91,6 +91,8 @@ def build_history(rng, srv, spool):
     # on a foreground daemon's process group); a stopped executor is as alive as a running one
     jobctl = rng.random() < 0.25
     stopped = []
+    # now and then the system cannot start another process (EAGAIN): that occurrence is lost, the ones after it are not
+    spawnfail = rng.random() < 0.12
 
     def advance(to):
         nonlocal t, stalls
@@ -103,6 +105,8 @@ def build_history(rng, srv, spool):
                     k = rng.randrange(0, 12)
                     stopped.append(k)
                     sc.add("stop %d" % k)
+            if spawnfail and rng.random() < 0.3:
+                sc.add("spawnfail %d" % rng.randint(1, 6))
             r = rng.random()
             if r < 0.1:
                 dt = rng.choice([0.5, 3.0, 12.0])
@@ -163,6 +167,8 @@ def run_history(root, srv, part, rng):
         st = sched.check_maxsimul(events, incs, lambda k, d: fails.append((k, d)))
         # a limited task must not lose or gain occurrences either: every due occurrence gets one spawn, run or no-run
         sched.check_schedule(events, incs, t_end, lambda k, d: fails.append(("schedule/" + k, d)))
+        if "\nSPAWNFAIL " in out:
+            part.count("spawns_that_failed", out.count("\nSPAWNFAIL "))
         nstop = out.count("\nSTOP ")
         if nstop:
             part.count("executors_stopped_while_running", nstop)
